@@ -227,13 +227,21 @@ def node_is_menu(node):
         return False  # not all MenuNodes have is_menuconfig for some reason
 
 
+def _is_excluded_menu(node):
+    """
+    True for a plain ``menu`` whose title is one of EXCLUDED_MENU_NAMES. Only menus are excluded by name: an option
+    (config, menuconfig) or a choice that happens to carry the same prompt text is documented like any other.
+    """
+    return node.item == kconfiglib.MENU and bool(node.prompt) and node.prompt[0] in EXCLUDED_MENU_NAMES
+
+
 def get_breadcrumbs(node):
     # this is a bit wasteful as it recalculates each time, but still...
     result = []
     node = node.parent
     while node.parent:
         # Excluded menus are not documented, so they have no anchor to link to
-        if node.prompt and node.prompt[0] not in EXCLUDED_MENU_NAMES:
+        if node.prompt and not _is_excluded_menu(node):
             result = [f":ref:`{get_link_anchor(node)}`"] + result
         node = node.parent
     return " > ".join(result)
@@ -658,7 +666,7 @@ def write_menu_item(f, node, visibility, kconfig, reverse_deps):
 
     is_menu = node_is_menu(node)
 
-    if is_menu and node.prompt[0] in EXCLUDED_MENU_NAMES:
+    if _is_excluded_menu(node):
         return
 
     # Heading
@@ -811,7 +819,7 @@ def write_menu_item(f, node, visibility, kconfig, reverse_deps):
                 not is_choice_member(child)
                 and child.prompt
                 and visibility.visible(child)
-                and child.prompt[0] not in EXCLUDED_MENU_NAMES
+                and not _is_excluded_menu(child)
             ):
                 child_list.append((child.prompt[0], get_link_anchor(child)))
             child = child.next
